@@ -6,7 +6,12 @@ def run(ctx):
     import random
     def extra(ctx):
         rnd = random.Random(ctx.seed + 77)
-        return [ec.motif_deps_swap(rnd, 'C01_swap_%d' % i) for i in range(60)]
+        hs = [ec.motif_deps_swap(rnd, 'C01_swap_%d' % i) for i in range(60)]
+        # "after ANY history" includes invocations that were killed: every crash point of the build in which a restat+deps command
+        # re-reports its dependencies, then the recovery build (the full crash campaign is C07's)
+        bases = [ec.motif_restat_deps_crash(rnd, 'C01_rd%d' % i) for i in range(3)]
+        for b, n in zip(bases, ec.count_crash_points(bases, rnd)): hs += ec.crash_variants(rnd, b, min(n, 60))
+        return hs
     engcommon.run_engine_property(ctx, 'C01', scan_accept=700, oracles=[('c01', None)], faults=0.3, extra_hists=extra, feat=dict(dyndep=0.25))
     # the history-level model (coq/Engine/HistDefs.v, theorems of Properties_C01hist.v) run against the real engine
     histmodel.hook(ctx, 'C01')
